@@ -8,6 +8,7 @@ import SpVerif.Ops.SeqCount
 import SpVerif.Ops.Cds
 import SpVerif.Ops.CfdpHeader
 import SpVerif.Ops.ByteField
+import SpVerif.Ops.FileData
 /-!
 # Line-protocol driver: one JSON object per input line (`{"op": …, …}`), one JSON result per output line.
 `{"ok": …}` / `{"err": "<category>"}` are model results; `{"bad": "<msg>"}` is a protocol error.
@@ -25,6 +26,7 @@ def allOps : List (String × Handler) := []
   ++ Ops.Cds.ops
   ++ Ops.CfdpHeader.ops
   ++ Ops.ByteField.ops
+  ++ Ops.FileData.ops
 
 def table : Std.HashMap String Handler := Std.HashMap.ofList allOps
 
